@@ -834,6 +834,7 @@ package allocator
 //@   ensures [unchangedOnError] result1 != nil ==> result0 == nil && (forall s string :: a.allocated[s] == old(a.allocated[s]))
 //@   ensures [pair] result1 == nil ==> result0 != nil && a.allocated[svcKey] != nil && len(a.allocated[svcKey].ips) == 2
 //@       && a.allocated[svcKey].ips[0] == existingIP && a.allocated[svcKey].ips[1] == result0 && net.is4(result0) != net.is4(existingIP)
+//@   ensures [pairFresh] result1 == nil ==> fresh(a.allocated[svcKey].ips)
 //@   ensures [fromPool] result1 == nil ==> (poolName in a.pools.ByName) && InCIDRs(a.pools.ByName[poolName], result0)
 //@   ensures [poolsSame] a.pools == old(a.pools) && (forall n string :: (n in a.pools.ByName) == old(n in a.pools.ByName) && a.pools.ByName[n] == old(a.pools.ByName[n]))
 
